@@ -168,7 +168,7 @@ specs = {
          "all configuration sequences to length 1 + 250 of length 2 (quick) / all to 2 + 3000 of length 3 (thorough) over a 24-call alphabet (header/claim set/del of alg,typ,iat,exp,nbf,x; enable_iat; time_offset -5/0/1/600; setkey; unset key) + random longer ones, each with two generates at clocks {0,1,2^31,2^40}, every third with a mutating callback; builder state read back after each generate", False),
     ])'''),
  "c15": dict(doc="C15 -- header and claim set/get/delete behave as a typed map.",
-   mods=["Jwt.Props.C15"], files=["Jwt/Props/C15.lean"], gen=0,
+   mods=["Jwt.Props.C15"], files=["Jwt/Props/C15.lean"], gen=2,
    level="Lean refinement of setter/getter/deleter to the abstract map Name -> Option Json: EXIST without change, overwrite/insert touching only the named member, typed get (value/NOEXIST/TYPE), delete one/all, whole-object merge (all members with replace, missing-only without) by induction over the document, INVALID refusals without change, and the invariant that the map stays a JSON object. Tied to the code by exhaustive one- and two-operation sequences (sampled for 2 in quick) over names {a,c,empty,NULL} x 16 typed values x replace on builder headers and claims and on the jwt_t inside callbacks, with a whole-object read-back after every step, judged by an independent Python typed map.",
    assume=["names and string values outside valid UTF-8 are excluded from the theorems' hypotheses (json_string refuses them); the excluded point is exercised by the suite as an observation"],
    body='''    F.run_suites(ctx, model_ok, deep, [
